@@ -16,7 +16,7 @@ from vlib.runner import hyp_run
 from vlib.sim import Sim, api_app
 
 PROPERTY = 'C16'
-RULE = ('matrix: every /v1/peer/ rule x {GET,HEAD,POST,PUT,DELETE,PATCH} x {no credentials, wrong user, wrong password, '
+RULE = ('matrix: every /v1/peer/ rule x {GET,HEAD,POST,PUT,DELETE,PATCH,OPTIONS} x {no credentials, wrong user, wrong password, '
         'empty password, right} x {Idle-fresh, Idle-stopped, Connect, OpenSent, OpenConfirm, Established} x {valid, empty, '
         'malformed} body; sends: generated UPDATE requests (IPv4 + standard attributes, IPv6 unicast, VPNv4) on eBGP / iBGP. '
         'Non-trivial = request hits a state-changing or sending endpoint or uses wrong-but-well-formed credentials; '
@@ -108,6 +108,8 @@ def matrix_case(state, rule, path, methods, method, cred, bodykind):
     if cred != 'right':
         if code == 401 or (code == 405 and not accepted):
             pass
+        elif method == 'OPTIONS' and code == 200 and not body:
+            pass     # the framework's automatic OPTIONS reply: no body, and (checked below) no effect
         else:
             out.append(('auth:%s:%s:%s->%s' % (short, method, cred, code), '%s %s with %s credentials answered %s %r' % (method, path, cred, code, body)))
         if before != after:
@@ -272,7 +274,7 @@ def run_shard(spec, seed, col, tier):
     if spec['kind'] == 'matrix':
         for rule, path, methods in spec['rules']:
             for state in STATES:
-                for method in ('GET', 'HEAD', 'POST', 'PUT', 'DELETE', 'PATCH'):
+                for method in ('GET', 'HEAD', 'POST', 'PUT', 'DELETE', 'PATCH', 'OPTIONS'):
                     for cred in CREDS:
                         for bodykind in (('valid', 'empty', 'malformed') if method in ('POST', 'PUT', 'PATCH') else ('none',)):
                             case = {'k': 'matrix', 'state': state, 'rule': rule, 'path': path, 'methods': methods,
